@@ -151,7 +151,7 @@ func (c *concCtx) snapshot(m proto.Message) string {
 	return sb.String()
 }
 
-func firstDiff(a, b string) string {
+func snapDiff(a, b string) string {
 	i := 0
 	for i < len(a) && i < len(b) && a[i] == b[i] {
 		i++
@@ -328,7 +328,7 @@ func (c *concCtx) shared(mi *msgInfo, v *V, iters int, deadline time.Time) {
 		seq[i] = runOp(op, sharedMsg, priv0)
 		after := c.snapshot(sharedMsg)
 		o.withKey("conc/"+id+"/"+op.name+"/writes").prop("C11", after == prev,
-			fmt.Sprintf("read-only operation %s writes to the message struct of %s (sequential run): %s; value %s", op.name, id, firstDiff(prev, after), v))
+			fmt.Sprintf("read-only operation %s writes to the message struct of %s (sequential run): %s; value %s", op.name, id, snapDiff(prev, after), v))
 		prev = after
 		o.withKey("conc/"+id+"/"+op.name+"/panic").prop("C11", !strings.HasPrefix(seq[i], "panic: "), fmt.Sprintf("read-only operation %s on %s panics: %s; value %s", op.name, id, seq[i], v))
 		again := runOp(op, sharedMsg, priv0)
@@ -377,7 +377,7 @@ func (c *concCtx) shared(mi *msgInfo, v *V, iters int, deadline time.Time) {
 	o.hist["concurrent_ops"] += total
 	snapAfter := c.snapshot(sharedMsg)
 	o.withKey("conc/"+id+"/writes").prop("C11", snapAfter == snapBefore && c.lib.rawG(mi, sharedMsg) == rawBefore,
-		fmt.Sprintf("the message struct of %s changed during %d concurrent read-only operations: %s; value %s", id, total, firstDiff(snapBefore, snapAfter), v))
+		fmt.Sprintf("the message struct of %s changed during %d concurrent read-only operations: %s; value %s", id, total, snapDiff(snapBefore, snapAfter), v))
 	o.count("shared_messages")
 	o.nontrivial(si.id + "/" + fmt.Sprint(mi.idx) + "/" + shapeKey(v))
 }
